@@ -254,7 +254,7 @@ theorem progress_partial (c : Cfg) (s : State) (hr : Reachable c s) (hin : s.cpc
 example : ∃ s, Reachable cfgE s ∧ s.cpc.inNext = true ∧ 0 < cfgE.N ∧ 0 < cfgE.max ∧ NoDead s ∧
     ¬ SourceErrorRaised cfgE s :=
   ⟨(run cfgE (init cfgE) (trE.take 33)).get (by decide), ⟨trE.take 33, (Option.some_get _).symm⟩, by decide,
-    by decide, by decide, by decide, by simp [SourceErrorRaised, cfgE]⟩
+    by decide, by decide, by unfold NoDead; decide, by simp [SourceErrorRaised, cfgE]⟩
 
 /-- **C11 `variant`.** The measure `mu` strictly decreases on every action that is neither a timeout nor the start
 of a new `next()` call.  With `progress_partial`: under a scheduler that fires timeouts only when nothing else can
@@ -279,36 +279,125 @@ example : ∃ s, Reachable cfgE s ∧ 0 < s.nstop ∧ s.cpc = .idle :=
 
 /-! ## C17 — background threads are released -/
 
+/-- A stop event that is set stays set. -/
+theorem stop_stays (c : Cfg) (s s' : State) (a : Action) (hs : step c s a = some s') :
+    (s.stop = true → s'.stop = true) ∧ (s.mpstop = true → s'.mpstop = true) := by
+  by_cases hb : a.isBackground = true
+  · obtain ⟨_, h2, h3⟩ := bg_frame hb hs
+    rw [h2, h3]; exact ⟨id, id⟩
+  · cases a <;> simp [Action.isBackground] at hb <;> simp only [step] at hs
+    case cBoot => obtain ⟨_, _, rfl⟩ := spec_cBoot.mp hs; simp
+    case cBootT => obtain ⟨_, _, rfl⟩ := spec_cBootT.mp hs; simp
+    case cCall => obtain ⟨_, rfl⟩ := spec_cCall.mp hs; simp
+    case cIsSet => obtain ⟨_, rfl⟩ := spec_cIsSet.mp hs; split <;> simp
+    case cMpIsSet => obtain ⟨_, rfl⟩ := spec_cMpIsSet.mp hs; split <;> simp
+    case cChk => obtain ⟨_, rfl⟩ := spec_cChk.mp hs; simp
+    case cSet => obtain ⟨_, rfl⟩ := spec_cSet.mp hs; simp
+    case cMpSet => obtain ⟨_, rfl⟩ := spec_cMpSet.mp hs; simp
+    case cGet =>
+      obtain ⟨m, rest, _, _, rfl⟩ := spec_cGet.mp hs
+      cases hio : c.inOrder <;> cases hp : m.pay <;> simp [setOutq, hio]
+    case cGetT => obtain ⟨_, _, rfl⟩ := spec_cGetT.mp hs; simp
+    case cRel => obtain ⟨m, _, _, rfl⟩ := spec_cRel.mp hs; cases m.pay <;> simp
+    case cPop => obtain ⟨m, y, _, _, rfl⟩ := spec_cPop.mp hs; simp
+    case cShutSet => obtain ⟨_, rfl⟩ := spec_cShutSet.mp hs; simp
+    case cShutMpSet => obtain ⟨_, rfl⟩ := spec_cShutMpSet.mp hs; simp
+
 /-- **C17 reader.** Once `_stop` is set, each own step of the reader strictly decreases `rrank ≤ 6` (it exits at its
 loop head, or finishes the iteration it is in: acquire or time out, leave the source, append, put), no other thread
-changes it, and a live reader always has an enabled step. -/
+changes it, `_stop` stays set, and a live reader always has an enabled step. -/
 theorem released_reader (c : Cfg) (s s' : State) (a : Action) (hstop : s.stop = true) (hs : step c s a = some s') :
     (a ∈ [Action.rInit, .rIsSet, .rAcq, .rAcqT, .rEnter, .rLeave, .rAppend, .rPut] → rrank s'.rpc < rrank s.rpc) ∧
     (a ∉ [Action.rInit, .rIsSet, .rAcq, .rAcqT, .rEnter, .rLeave, .rAppend, .rPut] → s'.rpc = s.rpc) ∧
     s'.stop = true ∧ rrank s.rpc ≤ 6 ∧ (rrank s.rpc = 0 ↔ s.rpc = .exited) ∧
     (s.rpc ≠ .exited → ∃ b, b ∈ [Action.rInit, .rIsSet, .rAcq, .rAcqT, .rEnter, .rLeave, .rAppend, .rPut] ∧
       (step c s b).isSome = true) := by
-  refine ⟨?_, ?_, ?_, ?_, ?_, reader_live c s⟩
+  refine ⟨?_, ?_, (stop_stays c s s' a hs).1 hstop, ?_, ?_, reader_live c s⟩
   · intro ha
-    cases a <;> simp at ha <;> exact released_reader_step hstop hs
+    cases a <;> simp at ha <;> simp only [step] at hs <;> exact released_reader_step hstop hs
   · intro ha
     cases a <;> simp at ha <;> simp only [step] at hs
     all_goals first
       | exact (reader_frame_W hs).1
       | exact (reader_frame_S hs).1
       | exact (reader_frame_C hs).1
-  · cases a <;> simp only [step] at hs
+  · cases s.rpc <;> simp [rrank]
+  · cases s.rpc <;> simp [rrank]
+
+/-- **C17 workers.** Once the workers' stop event and `_stop` are set, each own step of worker `i` strictly decreases
+`wrank s i ≤ 5·(|in_q| + 1) + 5` (it first drains the in-queue together with the other workers), no step of any
+other thread increases it, and a live worker always has an enabled step. -/
+theorem released_worker (c : Cfg) (s s' : State) (a : Action) (i : Nat) (hstop : s.stop = true)
+    (hflag : (if c.proc then s.mpstop else s.stop) = true) (hs : step c s a = some s') :
+    (a.worker = some i → wrank s' i < wrank s i) ∧ (a.worker ≠ some i → wrank s' i ≤ wrank s i) ∧
+    wrank s i ≤ 5 * (s.inq.length + 1) + 5 ∧
+    (∀ p, s.wk[i]? = some p → p ≠ .exited → p ≠ .dead → 0 < wrank s i ∧
+      ∃ b, b.worker = some i ∧ (step c s b).isSome = true) := by
+  refine ⟨?_, ?_, ?_, ?_⟩
+  · intro ha
+    cases a <;> simp [Action.worker] at ha <;> simp only [step] at hs <;>
+      exact released_worker_own i hflag (by simp [Action.worker, ha]) hs
+  · intro ha
+    cases a <;> simp only [step] at hs
     all_goals first
-      | (have := released_reader_step hstop hs
-         cases a' : s.rpc <;> skip
-         all_goals first | (exact absurd hs (by simp [stepR])) | skip
-         done)
-      | (rw [(reader_frame_W hs).2]; exact hstop)
-      | (rw [(reader_frame_S hs).2]; exact hstop)
-      | exact (reader_frame_C hs).2 hstop
-      | skip
-    all_goals sorry
-  · cases s.rpc <;> simp [rrank]
-  · cases s.rpc <;> simp [rrank]
+      | exact worker_rank_R i hstop hs
+      | exact worker_rank_other_W i ha hs
+      | exact worker_rank_S i hs
+      | exact worker_rank_C i hs
+  · unfold wrank wrankOf
+    have : rp s.rpc ≤ 1 := by cases s.rpc <;> simp [rp]
+    split <;> (try split) <;> omega
+  · intro p hp h1 h2
+    refine ⟨?_, worker_live c s i p hp h1 h2⟩
+    unfold wrank wrankOf
+    rw [hp]
+    cases p <;> simp at h1 h2 ⊢
+    split <;> omega
+
+/-- **C17 sorter.** Once `_stop` is set, each own step of the sorter strictly decreases `srank ≤ |buffer| + 5` (it
+finishes the message in its hand, releases the consecutive run from its buffer, and exits at its loop head); no other
+thread changes it; a live sorter always has an enabled step. -/
+theorem released_sorter (c : Cfg) (s s' : State) (a : Action) (hstop : s.stop = true) (hs : step c s a = some s') :
+    (a ∈ [Action.sIsSet, .sGet, .sGetT, .sHave, .sDrain] → srank s' < srank s) ∧
+    (a ∉ [Action.sIsSet, .sGet, .sGetT, .sHave, .sDrain] → s'.spc = s.spc ∧ s'.buf = s.buf) ∧
+    srank s ≤ s.buf.length + 5 ∧ (srank s = 0 ↔ (s.spc = .exited ∨ s.spc = .off)) ∧
+    (s.spc ≠ .exited → s.spc ≠ .off → ∃ b, b ∈ [Action.sIsSet, .sGet, .sGetT, .sHave, .sDrain] ∧
+      (step c s b).isSome = true) := by
+  refine ⟨?_, ?_, ?_, ?_, sorter_live c s⟩
+  · intro ha
+    cases a <;> simp at ha <;> simp only [step] at hs <;> exact released_sorter_step hstop hs
+  · intro ha
+    cases a <;> simp at ha <;> simp only [step] at hs
+    all_goals first
+      | exact sorter_frame_R hs
+      | exact sorter_frame_W hs
+      | exact sorter_frame_C hs
+  · unfold srank; split <;> omega
+  · unfold srank
+    cases s.spc <;> simp
+
+example : ∃ s, Reachable cfgE s ∧ s.stop = true ∧ s.mpstop = true ∧ s.rpc = .exited ∧ 0 < wrank s 0 ∧ 0 < srank s :=
+  ⟨sE.get sE_isSome, sE_reachable, by decide, by decide, by decide, by decide, by decide⟩
+
+/-! ## `Gen` — iterator generations (`_shutdown`, `__del__`, `reset`) -/
+
+/-- Every generation — the live iterator and every abandoned one whose threads are still running — satisfies the whole
+invariant (so the bookkeeping and the read-ahead bound hold per generation across `reset`), and abandoned generations
+have both stop events set, so `released_*` applies to each of their threads: whatever the timed joins of `_shutdown`
+did (returned or gave up), the old threads exit after a bounded number of their own steps. -/
+theorem Gen.released (c : Cfg) (tr : List GAction) (g : GState) (hr : grun c (ginit c) tr = some g) :
+    Inv c g.cur ∧ ∀ s ∈ g.old, Inv c s ∧ held s ≤ c.max ∧ s.cpc = .closed ∧ s.stop = true ∧ s.mpstop = true ∧
+      (if c.proc then s.mpstop else s.stop) = true := by
+  have h := ginv_run tr (ginv_init c) hr
+  refine ⟨h.cur, ?_⟩
+  intro s hs
+  obtain ⟨h1, h2, h3, h4⟩ := h.old s hs
+  refine ⟨h1, held_le_max h1, h2, h3, h4, ?_⟩
+  cases c.proc <;> simp [h3, h4]
+
+/-- non-vacuity: a reset after the first epoch of `cfgE`; the old generation is kept and a join may have given up. -/
+example : ∃ g, grun cfgE (ginit cfgE) ((trE.map GAction.cur) ++ [.cur .cShutSet, .cur .cShutMpSet, .joinGiveUp, .renew]) = some g ∧
+    g.old.length = 1 ∧ g.joinsGivenUp = 1 := by
+  refine ⟨_, rfl, ?_, ?_⟩ <;> decide
 
 end TDV.PM
